@@ -5,6 +5,7 @@ import Bng.Drv.Decoders
 import Bng.Drv.Coa
 import Bng.Drv.Acct
 import Bng.Drv.AcctBackoff
+import Bng.Drv.AcctDirect
 import Bng.Drv.TokenBucket
 import Bng.Drv.Antispoof
 import Bng.Drv.HaSync
@@ -44,6 +45,7 @@ def components : List (String × Component) := [
   ("coa", CoaDrv.component),
   ("acct", AcctDrv.component),
   ("acctretry", AcctBackoffDrv.component),
+  ("acctdirect", AcctDirectDrv.component),
   ("qos", TokenBucketDrv.component),
   ("antispoof", AntispoofDrv.component),
   ("hasync", HaSyncDrv.component),
